@@ -1,5 +1,6 @@
 import NeumannModel.Common.Proto
 import NeumannModel.Snap.Model
+import NeumannModel.Snap.Store
 /- Line-protocol driver for the snapshot model (C07). -/
 open Neumann Neumann.Proto Neumann.Snap
 
@@ -328,4 +329,211 @@ def snapStep (cur : FS Bool) (line : String) : FS Bool × String :=
     | none => bad
   | _ => bad
 
-def main : IO Unit := run snapStep (fun _ => none)
+/-! ## the store model: two router registers (0 = the store being saved, 1 = what was loaded) -/
+
+structure DState where
+  fs : FS Bool
+  r0 : Router
+  r1 : Router
+  cfg : RouterCfg
+
+def defaultCfg : RouterCfg := ⟨384, 10000, 10000, 67108864, ⟨false, false⟩⟩
+
+def DState.init : DState := ⟨fun _ => none, Router.new defaultCfg, Router.new defaultCfg, defaultCfg⟩
+
+def parseTData (s : String) : Option TData :=
+  if s = "-" then some []
+  else (s.splitOn "|").mapM (fun item =>
+    match item.splitOn "=" with
+    | [f, v] =>
+      match strOfHex f, parseTValue v with
+      | some f, some v => some (f.toList, v)
+      | _, _ => none
+    | _ => none)
+
+def showName (n : Name) : String := hexOfStr (String.ofList n)
+
+def showTData (d : TData) : String :=
+  if d.isEmpty then "-" else "|".intercalate (d.map (fun p => showName p.1 ++ "=" ++ showTValue false p.2))
+
+def showOptData : Option TData → String
+  | some d => showTData d
+  | none => "notfound"
+
+def joinOr (sep : String) (xs : List String) : String := if xs.isEmpty then "-" else sep.intercalate xs
+
+def showVocab (ix : EIndex) : String :=
+  joinOr "," ((List.range ix.vocab.length).map (fun i =>
+    (if i ∈ ix.tomb then "x" else "") ++ showName (ix.vocab.getD i [])))
+
+def showRouter (r : Router) : String :=
+  s!"idx={showVocab r.index};live={r.index.live};dim={r.emb.dim};emb=" ++
+  joinOr "/" (r.emb.ents.map (fun e => s!"{e.1}:{showNats e.2}")) ++ ";md=" ++
+  joinOr "&" (r.md.map (fun p => showName p.1 ++ "~" ++ showTData p.2)) ++ s!";cache={r.cache.cap}:" ++
+  joinOr "&" ((occupied r.cache.slots).map (fun e => showName e.key ++ "~" ++ showTData e.val)) ++
+  s!";len={r.len};count={r.entryCount}"
+
+def showPairs (xs : List (Nat × Nat)) : String := joinOr "," (xs.map (fun p => s!"{p.1}:{p.2}"))
+
+def showGraphInfo (g : GraphT) : String :=
+  s!"next={g.nextId} max={g.maxNode} pending={g.pending.length} edges={g.edgeCount} types={joinOr "," (g.types.map showName)}"
+
+def showBlobInfo (b : BlobLog) : String :=
+  s!"chunks={b.chunkCount} bytes={b.totalBytes} segments={1 + b.sealed.length}"
+
+def getReg (st : DState) (r : String) : Option Router :=
+  if r = "0" then some st.r0 else if r = "1" then some st.r1 else none
+
+def setReg (st : DState) (r : String) (x : Router) : DState :=
+  if r = "0" then { st with r0 := x } else { st with r1 := x }
+
+def parseName (h : String) : Option Name := (strOfHex h).map (·.toList)
+
+def parseEntries (s : String) : Option (List (Name × TData)) :=
+  if s = "-" then some []
+  else (s.splitOn "&").mapM (fun item =>
+    match item.splitOn "~" with
+    | [k, d] =>
+      match parseName k, parseTData d with
+      | some k, some d => some (k, d)
+      | _, _ => none
+    | _ => none)
+
+def storeStep (st : DState) (ws : List String) : Option (DState × String) :=
+  match ws with
+  | ["rt_new", dim, cap, thr, seg, keep, prune] =>
+    match dim.toNat?, cap.toNat?, thr.toNat?, seg.toNat?, parseBool keep, parseBool prune with
+    | some dim, some cap, some thr, some seg, some keep, some prune =>
+      let cfg : RouterCfg := ⟨dim, cap, thr, seg, ⟨keep, prune⟩⟩
+      some ({ st with cfg := cfg, r0 := Router.new cfg, r1 := Router.new cfg }, "ok")
+    | _, _, _, _, _, _ => none
+  | ["rt_put", r, key, data, victim] =>
+    match getReg st r, parseName key, parseTData data, victim.toNat? with
+    | some x, some key, some d, some victim => some (setReg st r (x.put key d victim), "ok")
+    | _, _, _, _ => none
+  | ["rt_get", r, key] =>
+    match getReg st r, parseName key with
+    | some x, some key => some (setReg st r (x.touch key), showOptData (x.peek key))
+    | _, _ => none
+  | ["rt_del", r, key] =>
+    match getReg st r, parseName key with
+    | some x, some key => let y := x.delete key; some (setReg st r y.1, if y.2 then "ok" else "notfound")
+    | _, _ => none
+  | ["rt_exists", r, key] =>
+    match getReg st r, parseName key with
+    | some x, some key => some (st, if x.exists key then "1" else "0")
+    | _, _ => none
+  | ["rt_scan", r, pre] =>
+    match getReg st r, parseName pre with
+    | some x, some pre => some (st, joinOr "," ((x.scan pre).map showName))
+    | _, _ => none
+  | ["rt_clear", r] =>
+    match getReg st r with
+    | some x => some (setReg st r x.clear, "ok")
+    | none => none
+  | ["rt_dump", r] =>
+    match getReg st r with
+    | some x => some (st, showRouter x)
+    | none => none
+  | ["rt_kv", r] =>
+    match getReg st r with
+    | some x => some (st, joinOr "&" ((x.scan []).map (fun k => showName k ++ "~" ++ showOptData (x.peek k))))
+    | none => none
+  | ["rt_snap", ttok] =>
+    -- register 1 := restore(snapshot(register 0)); register 0 is what the save leaves behind
+    match parseBool ttok with
+    | some ttok =>
+      let sn := st.r0.snapshot (fun _ => ttok)
+      some ({ st with r0 := sn.1, r1 := Router.restore id st.cfg.fx sn.2 }, s!"ok {st.r0.entryCount}")
+    | none => none
+  | ["rt_rfb", ttok] =>
+    -- register 1 := restore_from_bytes(to_bytes(register 0)) applied to register 1
+    match parseBool ttok with
+    | some ttok =>
+      let sn := st.r0.snapshot (fun _ => ttok)
+      let new := Router.restore id st.cfg.fx sn.2
+      some ({ st with r0 := sn.1, r1 := restoreFromBytes st.r1 new (new.scan []) }, "ok")
+    | none => none
+  | ["rt_quant", tt, delta] =>
+    match parseBool tt, parseBool delta with
+    | some tt, some delta =>
+      let es := saveQuant ⟨tt, delta, true⟩ st.r0 (st.r0.scan [])
+      some ({ st with r1 := loadQuant id { defaultCfg with fx := st.cfg.fx } es }, s!"ok {es.length}")
+    | _, _ => none
+  | ["rt_loadv2", entries] =>
+    match parseEntries entries with
+    | some es => some ({ st with r1 := loadV2Entries { defaultCfg with fx := st.cfg.fx } es }, "ok")
+    | none => none
+  | ["g_add", r, src, dst, ty, directed] =>
+    match getReg st r, src.toNat?, dst.toNat?, parseName ty, parseBool directed with
+    | some x, some src, some dst, some ty, some d =>
+      let y := x.graph.addEdge src dst ty d
+      some (setReg st r { x with graph := y.1 }, toString y.2)
+    | _, _, _, _, _ => none
+  | ["g_del", r, id] =>
+    match getReg st r, id.toNat? with
+    | some x, some id =>
+      let y := x.graph.deleteEdge id
+      some (setReg st r { x with graph := y.1 }, if y.2 then "1" else "0")
+    | _, _ => none
+  | ["g_merge", r] =>
+    match getReg st r with
+    | some x => some (setReg st r { x with graph := x.graph.merge }, "ok")
+    | none => none
+  | ["g_out", r, node] =>
+    match getReg st r, node.toNat? with
+    | some x, some node => some (st, showPairs (x.graph.outgoing node))
+    | _, _ => none
+  | ["g_in", r, node] =>
+    match getReg st r, node.toNat? with
+    | some x, some node => some (st, showPairs (x.graph.incomingOf node))
+    | _, _ => none
+  | ["g_setdata", r, id, data] =>
+    match getReg st r, id.toNat?, parseTData data with
+    | some x, some id, some d => some (setReg st r { x with graph := x.graph.setEdgeData id d }, "ok")
+    | _, _, _ => none
+  | ["g_getdata", r, id] =>
+    match getReg st r, id.toNat? with
+    | some x, some id => some (st, showOptData (x.graph.getEdgeData id))
+    | _, _ => none
+  | ["g_info", r] =>
+    match getReg st r with
+    | some x => some (st, showGraphInfo x.graph)
+    | none => none
+  | ["b_append", r, hash, data] =>
+    match getReg st r, hash.toNat?, unhexBig data with
+    | some x, some h, some d => some (setReg st r { x with blobs := x.blobs.append h d }, "ok")
+    | _, _, _ => none
+  | ["b_get", r, hash] =>
+    match getReg st r, hash.toNat? with
+    | some x, some h => some (st, match x.blobs.get h with | some d => hex d | none => "none")
+    | _, _ => none
+  | ["b_contains", r, hash] =>
+    match getReg st r, hash.toNat? with
+    | some x, some h => some (st, if x.blobs.contains h then "1" else "0")
+    | _, _ => none
+  | ["b_mark", r, hash] =>
+    match getReg st r, hash.toNat? with
+    | some x, some h => some (setReg st r { x with blobs := x.blobs.markGarbage h }, "ok")
+    | _, _ => none
+  | ["b_info", r] =>
+    match getReg st r with
+    | some x => some (st, showBlobInfo x.blobs)
+    | none => none
+  | _ => none
+
+def isStoreOp (w : String) : Bool := w.startsWith "rt_" || w.startsWith "g_" || w.startsWith "b_"
+
+def fullStep (st : DState) (line : String) : DState × String :=
+  match words line with
+  | w :: rest =>
+    if isStoreOp w then
+      match storeStep st (w :: rest) with
+      | some res => res
+      | none => (st, "bad-op")
+    else
+      let res := snapStep st.fs line
+      ({ st with fs := res.1 }, res.2)
+  | [] => (st, "bad-op")
+
+def main : IO Unit := run fullStep DState.init
